@@ -523,9 +523,57 @@ def r8_retry(ctx, F, only_async=False):
                           % (owner.name, edges, what[:60]), loc=owner.loc())
     if not only_async:
         ctx.check("R8-retry", "sites", n >= 3, "only %d retry loops found in the transport" % n)
+        # the whole-buffer writers go on exactly while something is left, stop on a zero-length transfer, count down by what was moved
+        for adt in (FDW, VFW):
+            for b in F.find(name="write_all_from", self_adt=adt):
+                v = vf.VF(b, inline_depth=0, opaque_loops=True)
+                tag = adt.rsplit("::", 1)[-1]
+                sw = [x for h in sorted(v.loop_headers()) for x in c10.loop_switches(b, v, h)]
+                cont = [x for x in sw if x[0] == "Lt(0, loop(count))"]
+                zero = [x for x in sw if x[0].endswith("?") and "write_from(" in x[0]]
+                ctx.check("R8-retry", "%s::write_all_from/while-count" % tag, len(cont) == 1 and cont[0][1] == {0: "exit", "otherwise": "loop"},
+                          "%s::write_all_from must loop exactly while count > 0 (condition edges: %s)" % (tag, [(x[0][:40], x[1]) for x in sw if "count" in x[0]][:3]), loc=b.loc())
+                ctx.check("R8-retry", "%s::write_all_from/zero-is-an-error" % tag, len(zero) == 1 and zero[0][1] == {0: "exit", "otherwise": "loop"},
+                          "%s::write_all_from must end with WriteZero when a transfer moves nothing" % tag, loc=b.loc())
+                hs = sorted(v.loop_headers())
+                l = [i for i in range(len(b.locals)) if b.local_name(i) == "count"]
+                step = v.loop_def(l[0], hs[0])[1] if l and hs else []
+                t = " ; ".join(vf.render(x[1], b, short=True, vfx=v) for x in step)
+                ctx.check("R8-retry", "%s::write_all_from/counts-down" % tag, "Sub(loop(count), " in t and "write_from(" in t,
+                          "%s::write_all_from must decrease count by the amount each transfer moved (step: %s)" % (tag, t[:160]), loc=b.loc())
+
+
+def r2_fusedev_write(ctx, F):
+    """FuseDevWriter's two sync writers: buffered -> every (non-empty) slice is appended to self.buf, unbuffered -> one do_write
+    whose result is accounted; the value returned is the number of bytes taken."""
+    m = [x for x in F.fns.values() if x.self_adt == FDW and x.name == "write" and x.trait == "std::io::Write"]
+    w = [x for x in F.fns.values() if x.self_adt == FDW and x.name == "write_vectored" and x.trait == "std::io::Write"]
+    if len(m) != 1 or len(w) != 1:
+        raise core.Anchor("impl io::Write for FuseDevWriter")
+    m, w = m[0], w[0]
+    ctx.fn_seen(m)
+    ctx.fn_seen(w)
+    v = vf.VF(m, inline_depth=0)
+    eff = [(c.name, [vf.render(x, m, short=True) for x in v.call_args(c)], [(vf.render(x, m, short=True), l) for (x, l, u) in v.guards(c.bb) if not vf.render(x, m, short=True).startswith("discr(")])
+           for c in live_calls(m) if c.name in ("extend_from_slice", "do_write")]
+    ok = sorted(eff) == sorted([("extend_from_slice", ["self.buf", "data"], [("self.buffered", "otherwise")]), ("do_write", ["self.fd", "data"], [("self.buffered", 0)])])
+    ctx.check("R2-copy-loop", "FuseDevWriter::write/effects", ok, "FuseDevWriter::write must append `data` to self.buf when buffered and do_write(fd, data) otherwise: %s" % eff, loc=m.loc())
+    app = []
+    for cl in F.closures_of(w.key):
+        cv = vf.VF(cl, inline_depth=0)
+        for c in live_calls(cl):
+            if c.name == "extend_from_slice":
+                app.append(([vf.render(x, cl, short=True) for x in cv.call_args(c)], vf.render(cv.ret(), cl, short=True, vfx=cv)))
+    ctx.check("R2-copy-loop", "FuseDevWriter::write_vectored/appends-each-slice", app == [(["^self.buf", "b"], "Add(acc, impl [T]::len(b))")],
+              "FuseDevWriter::write_vectored (buffered) must append every slice and add its length to the count: %s" % app, loc=w.loc())
 
 
 def r2_copy_loop(ctx, F):
+    r2_fusedev_write(ctx, F)
+    _r2_copy_loop(ctx, F)
+
+
+def _r2_copy_loop(ctx, F):
     """VirtioFsWriter::write copies the caller's bytes into the guest slices it was handed: per slice min(remaining, slice
     length) bytes from the current source position to the slice's start, the source advances by that amount and the total
     returned is the sum."""
